@@ -1,10 +1,16 @@
 #!/bin/bash
-# usage: tools/nd.sh <neutral name> <props...>   apply neutral/<name>.diff to /repo, run the given checks, revert
+# usage: tools/nd.sh <neutral name | seeded/<seed>> <props...>   apply the diff to the private worktree /tmp/wtx, run the given checks there
 name=$1; shift
-cd /repo || exit 2
-if ! git diff --quiet; then echo "repo dirty"; exit 2; fi
-git apply /verif/neutral/$name.diff || exit 2
+wt=/tmp/wtx
+[ -d $wt ] || git -C /repo worktree add -q --detach $wt HEAD
+cd $wt || exit 2
+git checkout -q --detach $(git -C /repo rev-parse HEAD) 2>/dev/null; git reset -q --hard; git clean -fdq
+case $name in
+  seeded/*) patch=/verif/$name/patch.diff;;
+  *) patch=/verif/neutral/$name.diff;;
+esac
+git apply $patch || git apply --3way $patch || exit 2
 for p in "$@"; do
-  (cd /verif && ./check $p --no-evidence > /tmp/nd.out 2>&1; echo "[$name] $p exit=$?"; grep -E "ANALYSIS-ERROR|^antismash" /tmp/nd.out | cut -c1-${ND_WIDTH:-420})
+  (cd /verif && ./check $p --repo $wt --no-evidence > /tmp/nd.out 2>&1; echo "[$name] $p exit=$?"; grep -E "ANALYSIS-ERROR|^antismash" /tmp/nd.out | cut -c1-${ND_WIDTH:-420})
 done
-git checkout -- .
+git reset -q --hard
